@@ -756,6 +756,8 @@ def execute(job):
         return execute_enum_trunc(job)
     if kind == "enum_journal":
         return execute_enum_journal(job)
+    if kind == "enum_kill":
+        return execute_enum_kill(job)
     raise HarnessError("unknown job kind " + kind)
 
 
@@ -977,6 +979,58 @@ def execute_enum_journal(job):
     return out
 
 
+def execute_enum_kill(job):
+    """Ground truth for the 'kill' crash model: a real child process is really
+    SIGKILLed at the k-th file operation of a storing request (its user-space
+    buffers are lost for real, what the kernel already has persists); the next
+    process works on whatever directory that leaves behind."""
+    import signal
+
+    from bldfm.cache import GreensFunctionCache
+    from bldfm.solver import steady_state_transport_solver as solve
+
+    spec = job["spec"]
+    out = {"status": "ok", "cases": 0, "kind": "enum_kill", "killed": 0}
+    try:
+        os.chdir(job["run_dir"])
+        args = S.build_args(spec)
+        exp = solve(**args, cache=None)
+        for k in range(job["lo"], job["hi"]):
+            if os.path.isdir(CACHE_DIR):
+                for f in os.listdir(CACHE_DIR):
+                    os.unlink(os.path.join(CACHE_DIR, f))
+            pid = os.fork()
+            if pid == 0:
+                try:
+                    disk = SimDisk(job["run_dir"])
+
+                    def hook(d, idx, kind, rel, info, k=k):
+                        if idx == k:
+                            os.kill(os.getpid(), signal.SIGKILL)
+
+                    disk.hook = hook
+                    disk.install()
+                    solve(**args, cache=GreensFunctionCache(CACHE_DIR))
+                finally:
+                    os._exit(0)
+            _, st = os.waitpid(pid, 0)
+            killed = os.WIFSIGNALED(st)
+            out["case"] = {"kind": "enum_kill", "spec": spec, "lo": k, "hi": k + 1}
+            _check_after_damage(args, exp, f"process SIGKILLed at file operation {k} of a storing request", recheck=True)
+            out["cases"] += 1
+            out["killed"] += 1 if killed else 0
+            if not killed:
+                break  # k is beyond the last file operation of the request
+        out.pop("case", None)
+    except Violation as v:
+        out["status"] = "violation"
+        out["violation"] = v.as_dict()
+    except HarnessError as e:
+        out["status"] = "harness_error"
+        out["error"] = str(e)
+    return out
+
+
 # ----------------------------------------------------------------------------
 # shrinking support
 
@@ -1060,6 +1114,8 @@ def plan(tier, master_seed, runs=None):
             enum_jobs.append({"kind": "enum_trunc", "spec": spec, "lo": lo, "hi": lo + step})
         for lo in range(0, 200, 10):
             enum_jobs.append({"kind": "enum_journal", "spec": spec, "lo": lo, "hi": lo + 10})
+        for lo in range(0, 100, 10):
+            enum_jobs.append({"kind": "enum_kill", "spec": spec, "lo": lo, "hi": lo + 10})
     # enumeration first: it is the exhaustive part
     return {"jobs": enum_jobs + jobs, "determinism_slice": 12, "shrink_budget_s": 90}
 
@@ -1068,6 +1124,8 @@ def evidence(plan_, executed, tier, master_seed):
     runs = [(j, r) for j, r in executed if j.get("kind") == "run"]
     enum_t = [(j, r) for j, r in executed if j.get("kind") == "enum_trunc"]
     enum_j = [(j, r) for j, r in executed if j.get("kind") == "enum_journal"]
+    enum_k = [(j, r) for j, r in executed if j.get("kind") == "enum_kill"]
+    kill_cases = sum(r.get("killed", 0) for _, r in enum_k)
     probes, fired, states, pairs, hooks = {}, {}, set(), set(), {}
     ops = 0
     digests = set()
@@ -1100,12 +1158,13 @@ def evidence(plan_, executed, tier, master_seed):
         sample_runs.append({"seed": j["record"]["seed"], "ops": j["record"]["ops"][:12], "n_specs": len(j["record"]["specs"]), "events": r.get("events", [])[:12]})
     missing_pairs = [k for k in S.NEIGHBOUR_KINDS if k not in pairs]
     cov = {
-        "evaluations": len(runs) + trunc_cases + journal_cases,
-        "distinct_nontrivial": len(nontrivial) + trunc_cases + journal_cases,
+        "evaluations": len(runs) + trunc_cases + journal_cases + kill_cases,
+        "distinct_nontrivial": len(nontrivial) + trunc_cases + journal_cases + kill_cases,
         "rule": "histories: seeded operation/fault sequences (requests that repeat / neighbour in exactly one solver argument / fresh; restart; clear; crash or I/O error "
                 "inside a storing request; damage of a stored entry; interface series) against the cache-less reference model; a history is non-trivial if it had at least one "
                 "cache hit or at least one fault that actually fired, and distinct by its event-log digest. Enumerated cases: every truncation length of E stored entries and "
-                "every journal boundary x {prefix, torn, zero-filled, seek-back patches missing} x {as left by this tree's writer, placed at the entry path}; each is distinct by construction.",
+                "every journal boundary x {prefix, torn, zero-filled, seek-back patches missing} x {as left by this tree's writer, placed at the entry path}, every single lost write, every lost 512-byte sector, "
+                "and a real SIGKILL of a real child process at every file operation of a storing request; each is distinct by construction.",
         "samples": sample_runs,
         "histories": len(runs),
         "histories_fault_free": ff,
@@ -1125,6 +1184,7 @@ def evidence(plan_, executed, tier, master_seed):
             "entry_lengths": [l for _, l in entry_lens],
             "truncation_cases": trunc_cases,
             "journal_boundary_cases": journal_cases,
+            "real_sigkill_at_every_file_operation_cases": kill_cases,
         },
         "simulated_time": "no timers on this path: simulated time is counted in operations (see 'operations'); the plan-cache thread is parked on the virtual clock and never ticks",
         "components": {
